@@ -46,6 +46,9 @@ static void prop(Ctx &c) {
     for (size_t i = 0; i < n; i++) { size_t off = B.off(i), cl = B.clen(i); if (!cl) { pat += "+"; continue; } if (c.boolean()) { pat += "+"; continue; } pat += "0"; std::fill(T0.begin() + off, T0.begin() + off + cl, (uint8_t)0x11); }
     static const int lims[] = {-1, 1, 2, 3, 7}; int limit = lims[c.pick(5)];
     bool passthrough = c.boolean();
+    // third way of driving the callbacks the public API allows: a caller that answers a refused fragment with zck_clear_error()
+    // and keeps feeding what the server sends (no zck_dl_reset in between)
+    bool clear_continue = c.gver >= 2 && c.rarely(3);
 
     int fd = lib::mkfd(T0, "tgt"); zckCtx *z = zck_create();
     if (!zck_init_read(z, fd)) { zck_free(&z); close(fd); c.fail("target-open", "target does not open"); }
@@ -92,12 +95,19 @@ static void prop(Ctx &c) {
         if (c.boolean()) add("\r\n--" + srv.style.boundary + "--\r\n");
     }
     std::vector<size_t> cuts = dl::gen_cuts(c, body.size());
-    c.desc << B.desc << " pattern=" << pat << " limit=" << limit << " request=" << range_str.substr(0, 60) << (passthrough ? " PASS-THROUGH" : " transport") << " " << rd.str() << " cuts=" << cuts.size();
+    c.desc << B.desc << " pattern=" << pat << " limit=" << limit << " request=" << range_str.substr(0, 60) << (passthrough ? " PASS-THROUGH" : " transport") << (clear_continue ? " CLEAR-ERROR-AND-CONTINUE" : "") << " " << rd.str() << " cuts=" << cuts.size();
     c.checkpoint();
     c.label(passthrough ? "pass-through" : "transport");
 
     dl::Response resp; resp.header_lines = hl; resp.body = body;
-    bool accepted = dl::deliver(d, resp, cuts, zck_write_chunk_cb, nullptr, false);
+    bool accepted;
+    if (!clear_continue) accepted = dl::deliver(d, resp, cuts, zck_write_chunk_cb, nullptr, false);
+    else {
+        accepted = true; c.label("clear-error-and-continue");
+        for (auto &l : resp.header_lines) { std::string t = l; if (zck_header_cb((char *)t.data(), 1, t.size(), d) != t.size()) { accepted = false; (void)!zck_clear_error(z); } }
+        for (auto &f : dl::fragments(resp.body.size(), cuts)) { Bytes tmp(resp.body.begin() + f.first, resp.body.begin() + f.first + f.second);
+            if (zck_write_chunk_cb(tmp.data(), 1, tmp.size(), d) != tmp.size()) { accepted = false; (void)!zck_clear_error(z); } }
+    }
     bool boundary_seen = d->boundary != nullptr; bool regex_built = d->dl_regex != nullptr;
     if (boundary_seen) c.label("boundary-extracted"); if (regex_built) c.label("part-regex-built");
     if (boundary_seen && regex_built) c.nontrivial();
